@@ -67,6 +67,11 @@ def jobs(tier):
                 continue
             out.append({"prop": PROP, "cfg": cfg, "order": "asc", "base": "B1", "scripts": A.stamp(sc),
                         "opts": {}, "pairs": tier != "quick" and n == 1})
+    # first-ever start: faults during the initial walk / first synchronisation of a tree that existed before the engine
+    for cfg in cfgs:
+        for base_side in (0, 1):
+            out.append({"prop": PROP, "cfg": cfg, "order": "asc", "base": "B1", "scripts": [[], []],
+                        "opts": {"unsynced_base": True, "base_side": base_side, "check_base": False}})
     # a fault in the middle of conflict resolution (application resolver answering merged data / one side, loser dropped)
     for cfg in cfgs:
         for shape, path in (("write", "a"), ("create", "c")):
